@@ -192,23 +192,26 @@ CLAIMED["C10"] = {
             "and then decode-encode is the identity (exact BigSize-length exception characterised); decoder total; "
             "generic layout laws (round-trip, canonical fixpoint, byte-exact losslessness for exact layouts, 65535-byte "
             "bound, framing) instantiated for the layouts GENERATED on every run from lnwire's Encode/Decode methods by "
-            "the Go->Coq translator (27 of 42 message types, 17 of 26 onion failure codes; Encode-layout = Decode-layout "
-            "asserted per message). Messages of the shape fixed fields ++ TLV extension (14 types incl. OpenChannel, "
+            "the Go->Coq translator (37 of 42 message types, all 25 onion failure codes - plain, channel_update-embedding, "
+            "EOF-tolerant; Encode-layout = Decode-layout asserted per message; C10_gen_coverage pins the fragment so a "
+            "message dropping out of it breaks the build). Messages of the shape fixed fields ++ TLV extension (14 types incl. OpenChannel, "
             "AcceptChannel, Funding*, ChannelReady, Shutdown, ClosingSigned, UpdateAddHTLC, CommitSig, ChannelUpdate1 with "
             "its flag-conditional field): every complete valid value round-trips; whatever Decode accepts re-encodes to a "
             "canonical fixpoint after one re-encode; exactly the unknown records are lost and only by the messages whose "
             "Encode re-packs (finding C10-F1, modelled); onion failure packet framing round-trips to exactly 260 bytes. "
             "Tied per run by byte-exact differential runs of tlv.ReadVarInt/WriteVarInt/Stream.Decode/DecodeP2P/Encode "
-            "and, for 28 message types and 17 failure codes, verdict, field values, ExtraData and re-encoded bytes of the "
+            "and, for 40 of the 45 harness message types and all 25 failure codes, verdict, field values, ExtraData and re-encoded bytes of the "
             "real ReadMessage/WriteMessage/DecodeFailure/EncodeFailure vs the model incl. crafted TLV extensions; plus "
             "implementation-only predicates (independent BOLT-1 parser, fixpoint, size, no panic, bounded time) over all "
-            "45 registered message types and 26 failure codes. Known findings C10-F1..F3 (Coq witnesses replayed on the code).",
-    "note": "partial: 15 message types (Closing*, Dyn*, RevokeAndAck, ChannelReestablish, NodeAnnouncement1, "
-            "QueryShortChanIDs, ReplyChannelRange, pure-TLV v2 gossip, OnionMessage) and 9 failure codes are outside the "
-            "translator's fragment: harness and predicates only; allocation/panic/time and zlib are exercised only. The "
-            "'never grows' clause is refuted for always-produced records (OpenChannel/AcceptChannel gain 2 bytes). A "
-            "mutation that pushes a message out of the translator's fragment is reported as proof_broken without a "
-            "failing input. lnwire compiles against tlv v1.4.0 from the module cache (no replace), so tlv-tree changes "
+            "45 registered message types and 25 failure codes. Known findings C10-F1..F3 (Coq witnesses replayed on the code).",
+    "note": "partial: 5 message types (AnnounceSignatures2, ChannelAnnouncement2, NodeAnnouncement2, ChannelUpdate2, "
+            "ReplyChannelRange) have no full layout model: harness, sweeps and predicates only, but their default-elision "
+            "side conditions are translated and tied (C10_gen_elisions_ok); zlib id encoding is harness-only; failure "
+            "payloads have the value round trip, no bytes fixpoint; allocation/panic/time are exercised only. The "
+            "'never grows' clause is refuted for always-produced records (OpenChannel/AcceptChannel gain 2 bytes) and for "
+            "the empty plain scid list (C10_scids_empty_grows). A message leaving the translator's fragment breaks "
+            "C10_gen_coverage and triggers a directed 5x search plus byte sweep of exactly that type, which reports "
+            "concrete inputs when a codec asymmetry exists, otherwise proof_broken with no-failing-input-found. lnwire compiles against tlv v1.4.0 from the module cache (no replace), so tlv-tree changes "
             "are seen only by the tlv-module harness. Trusted: Coq kernel, translator codec tables, python secp256k1 "
             "oracle and BOLT-1 parser, harnesses.",
     "technique": "Coq proof (induction over streams/layouts, accept-iff-canonical equivalence) + T1 Go->Coq layout "
@@ -605,5 +608,53 @@ _ADD = {
             ("technique", "+ composed sweeper/aggregator/publisher histories with per-request model check")],
 }
 for _pid, _items in _ADD.items():
+    for _field, _txt in _items:
+        CLAIMED[_pid][_field] += " " + _txt
+
+_ADD2 = {
+    "C10": [("text", "Optional-tail messages (ChannelReestablish shape): C10_optmsg_roundtrip/_fixpoint; failure payloads "
+                     "embedding a channel_update: C10_failure_update_roundtrip; default-elided TLV records: "
+                     "C10_elided_roundtrip_iff / _canonical / _lossy with the seven elision sites of ChannelUpdate2 / "
+                     "ChannelAnnouncement2 translated from the source on every run (C10_gen_elisions_ok: encoder test <=> "
+                     "value != the default the decoder fills in). Systematic per-record (1-byte values exhaustively, integer "
+                     "boundary sets, BigSize forms), per-fixed-byte and per-field (full Go type domain) sweeps, ~125,000 "
+                     "cases quick / 2.6 M thorough, under the deep-value fixpoint predicate decode(encode(decode b)) = "
+                     "decode b for all 45 message types incl. the five harness-only ones."),
+            ("technique", "+ exhaustive/boundary record, byte and field sweeps under a deep-value fixpoint predicate + "
+                          "translated default-elision table with iff-theorem")],
+    "C20": [("text", "Also over histories interleaving block connects/spends, re-orgs of funding blocks, "
+                     "DeleteChannelEdges +- zombie (strict), node sweeps and restarts on the real started graph.Builder and "
+                     "both stores (25 enumerated removal x sweep x update-pattern templates on bbolt and sqlite in every run "
+                     "plus a random tail): C20_nodes_have_channels (every stored node has a channel once the last unswept "
+                     "removal was followed by a sweep), C20_node_ann_needs_channel, C20_zombie_resurrection_authentic; the "
+                     "orphan window is refuted by witness (C20_node_ann_channelless_window_refuted = known findings C20-F2, "
+                     "C20-F3). Finding C20-F1 (f8d13ef, makeZombiePubkeys stored node1's key for the lagging edge2 side) was "
+                     "confirmed by this check and repaired in /repo."),
+            ("note", "pruneZombieChans' timer and syncGraphWithChain's missed-blocks path are not driven; the per-store "
+                     "flag sweep_always mirrors KV (sweep on every block) vs SQL (only when the block closed a known "
+                     "channel)."),
+            ("technique", "+ enumerated graph-maintenance history templates on the real Builder and both stores; "
+                          "store-flagged model; refuted-witness theorem for the orphan window")],
+    "C01": [("text", "The incremental add/remove-commit-height bookkeeping of lnwallet (evaluateHTLCView / computeView / "
+                     "setCommitHeight / compactLogs / restoreStateLogs) is modelled (Channel/View.v) and proved: heights are "
+                     "written once; in every schedule a height is set iff the entry lies below the cut of the chain's newest "
+                     "commitment (range invariant VInv); balance effects of a committed view are never applied again; "
+                     "compaction removes only entries locked in below both tails; computeView over the compacted logs equals "
+                     "the cut semantics (C01view_computeView_is_cut), and sign / receive-signature / revoke of the incremental "
+                     "machine produce the same messages and commitments as the cut model under the simulation relation Corr "
+                     "(C01view_corr_*). Tied per step and per log entry: every entry's presence, identity and four heights "
+                     "and the evaluated views of the real channel equal the View model (ViewExec)."),
+            ("note", "Schedule-level refinement View -> cut model: Corr is proved for the initial state and preserved by "
+                     "sign / receive-signature / revoke; preservation by update creation/delivery and by ReceiveRevocation's "
+                     "compaction is in progress (C01view_refinement_partial until then)."),
+            ("technique", "+ incremental-machine model with range invariant over all schedules and per-entry height "
+                          "correspondence (ViewExec) + model-free predicate heights_sane")],
+    "C02": [("text", "After every reload (crash observation, both restarts of every cut / write-level crash) the logs "
+                     "rebuilt by restoreStateLogs - entries, list order and all four commit heights - equal those of the Coq "
+                     "model of restoreStateLogs (ViewExec codes 161-176); v_restore proved idempotent and a function of the "
+                     "channel DB only (C01view_restore_partial)."),
+            ("technique", "+ per-entry restored-height correspondence against the View model")],
+}
+for _pid, _items in _ADD2.items():
     for _field, _txt in _items:
         CLAIMED[_pid][_field] += " " + _txt
